@@ -183,6 +183,12 @@ func setMeasurement(in any, val string) error {
 func doCast(result interface{}, tInfo string) (interface{}, ast.DType) {
 	switch strings.ToLower(tInfo) {
 	case "bool":
+		switch x := result.(type) { // conv.ToBool only knows int, not the int64/float64 the interpreter uses
+		case int64:
+			return x != 0, ast.Bool
+		case float64:
+			return x != 0, ast.Bool
+		}
 		return conv.ToBool(result), ast.Bool
 
 	case "int":
